@@ -1,2 +1,114 @@
--- Driver stub for C04 (replaced when the property's model driver is written).
-def main : IO Unit := IO.println "C04: no driver yet"
+import TsVerif.Common.IO
+import TsVerif.C04.Judge
+/-!
+Driver for C04.  Line protocol (see harness/src/bin/c04.rs, harness/csrc/cunit_c04.c):
+
+function level (answers must equal those of `tsv-cunit_c04` on the same lines):
+  `F <id> add <k> (sb sr sc eb er ec)*k`                → `<id> out=<ranges>`
+  `F <id> isect <n> (range)*n <startIndex> <sb> <eb>`   → `<id> out=0|1`
+  `F <id> symdiff <no> (range)*no <nn> (range)*nn`      → `<id> out=<ranges>`
+system level:
+  `lang <id>` … `sym …` / `aliases <maxLen> v…` … `endlang`
+  `case <cid> <lang>`, `len <n>`, `old` dump `end`, `new` dump `end`, `reported <n> (range)*n`, `run`
+    → `<cid> corr=… judge=… mono=… msound=… nr=… diffbytes=… rchg=… fuel=…`
+-/
+open TsVerif TsVerif.C04 TsGen
+
+def rangeOf : List Nat → Option (TSRange × List Nat)
+  | sb :: sr :: sc :: eb :: er :: ec :: rest =>
+    some ({ start_byte := sb, end_byte := eb, start_point := ⟨sr, sc⟩, end_point := ⟨er, ec⟩ }, rest)
+  | _ => none
+
+def rangesOf : Nat → List Nat → Option (List TSRange × List Nat)
+  | 0, ws => some ([], ws)
+  | k + 1, ws => do
+    let (r, ws) ← rangeOf ws
+    let (rs, ws) ← rangesOf k ws
+    return (r :: rs, ws)
+
+def outStr (rs : List TSRange) : String := if rs.isEmpty then "-" else fmtRanges rs
+
+def runF (id op : String) (ws : List Nat) : String :=
+  let bad := s!"{id} out=BADINPUT"
+  match op, ws with
+  | "add", k :: rest =>
+    match rangesOf k rest with
+    | some (rs, _) =>
+      let out := rs.foldl (fun acc r => add acc ⟨r.start_byte, r.start_point⟩ ⟨r.end_byte, r.end_point⟩) []
+      s!"{id} out={outStr out}"
+    | none => bad
+  | "isect", n :: rest =>
+    match rangesOf n rest with
+    | some (rs, [i, a, b]) => s!"{id} out={if intersects rs i a b then 1 else 0}"
+    | _ => bad
+  | "symdiff", no :: rest =>
+    match rangesOf no rest with
+    | some (old, nn :: rest) =>
+      match rangesOf nn rest with
+      | some (new, _) => s!"{id} out={outStr (symDiff old new)}"
+      | none => bad
+    | _ => bad
+  | _, _ => bad
+
+structure St where
+  langs : List (String × LangInfo) := []
+  curLang : String := ""
+  li : LangInfo := {}
+  id : String := ""
+  lang : String := ""
+  len : Nat := 0
+  old : Array String := #[]
+  new : Array String := #[]
+  reported : List TSRange := []
+  mode : Nat := 0   -- 0 none, 1 old, 2 new, 3 lang
+
+def runCase (s : St) : String :=
+  match s.langs.lookup s.lang, parseDump s.old.toList, parseDump s.new.toList with
+  | some li, some o, some n =>
+    let ch := treeChangedRanges li.alias o n
+    let corr := if ch.fuelOut then "DIFF fuel"
+      else if decide (ch.ranges = s.reported) then "ok"
+      else s!"DIFF model={outStr ch.ranges} impl={outStr s.reported}"
+    let v := judgeChanged li o n s.reported s.len
+    let j := match v.fail with
+      | none => "ok"
+      | some m => s!"FAIL {m}"
+    let mono := if traceAdmissible [] (ch.main ++ ch.post) then "ok"
+      else "bad:" ++ ",".intercalate ((ch.main ++ ch.post).map fun (a, b) => s!"{a.bytes}-{b.bytes}")
+    let ms := if matchSound li o n ch.matched then "ok" else "bad"
+    let rchg := if decide (o.ranges = n.ranges) then 0 else 1
+    s!"{s.id} corr={corr} judge={j} mono={mono} msound={ms} nr={s.reported.length} diffbytes={v.diffBytes} same={v.coveredSame} rchg={rchg} calls={ch.main.length + ch.post.length} matched={ch.matched.length}"
+  | _, _, _ => s!"{s.id} corr=BADINPUT judge=BADINPUT"
+
+def step (s : St) (line : String) : IO St := do
+  if s.mode == 1 then
+    if line == "end" then return { s with mode := 0 } else return { s with old := s.old.push line }
+  if s.mode == 2 then
+    if line == "end" then return { s with mode := 0 } else return { s with new := s.new.push line }
+  if s.mode == 3 then
+    match line.splitOn " " with
+    | ["endlang"] => return { s with mode := 0, langs := (s.curLang, s.li) :: s.langs }
+    | "sym" :: id :: _v :: _n :: _st :: pub :: name =>
+      let i := natOf id
+      let pm := (s.li.publicMap ++ Array.replicate (i + 1 - s.li.publicMap.size) 0).set! i (natOf pub)
+      let nm := (s.li.names ++ Array.replicate (i + 1 - s.li.names.size) "").set! i (" ".intercalate name)
+      return { s with li := { s.li with publicMap := pm, names := nm } }
+    | "aliases" :: maxLen :: vs =>
+      return { s with li := { s.li with alias := { maxLen := natOf maxLen, seqs := (vs.map natOf).toArray } } }
+    | _ => return s
+  match line.splitOn " " with
+  | "F" :: id :: op :: ws => IO.println (runF id op (ws.map natOf)); return s
+  | ["lang", id] => return { s with mode := 3, curLang := id, li := {} }
+  | ["case", id, lang] => return { s with id := id, lang := lang, old := #[], new := #[], reported := [], len := 0 }
+  | ["len", n] => return { s with len := natOf n }
+  | ["old"] => return { s with mode := 1 }
+  | ["new"] => return { s with mode := 2 }
+  | "reported" :: n :: ws =>
+    match rangesOf (natOf n) (ws.map natOf) with
+    | some (rs, _) => return { s with reported := rs }
+    | none => return s
+  | ["run"] => IO.println (runCase s); return s
+  | _ => return s
+
+def main : IO Unit := do
+  let _ ← foldLines (← IO.getStdin) ({} : St) step
